@@ -346,14 +346,106 @@ func iifeImpliesIdx(g *ssa.Function, idx int, result bool, f fact) bool {
 	return true
 }
 
-// edgeEstablishes: on successor e of ifi the fact holds, by ifi's own condition or because ifi
-// branches on a bool IIFE that implies it.
+// edgeEstablishes: on successor e of ifi the fact holds, by ifi's own condition, because ifi
+// branches on a bool IIFE that implies it, or because the condition is a materialised `a && b` /
+// `a || b` (a phi of booleans, as go/ssa builds for `switch { case a && b: }` or `ok := a && b`)
+// every feasible operand of which implies it.
 func edgeEstablishes(ifi *ssa.If, e int, f fact) bool {
 	if s, ok := directEdge(ifi, f); ok && s == e {
 		return true
 	}
 	if g, idx, succTrue, ok := boolIIFEIdx(ifi); ok {
 		return iifeImpliesIdx(g, idx, e == succTrue, f)
+	}
+	return condImplies(ifi.Cond, e == 0, f, ifi.Parent(), 0)
+}
+
+// condImplies: whenever the boolean v has the value val, the fact holds.
+func condImplies(v ssa.Value, val bool, f fact, fn *ssa.Function, depth int) bool {
+	if depth > 6 {
+		return false
+	}
+	for {
+		u, isU := v.(*ssa.UnOp)
+		if !isU || u.Op != token.NOT {
+			break
+		}
+		v, val = u.X, !val
+	}
+	switch f.kind {
+	case "bool":
+		if f.isV(v) && val == f.want {
+			return true
+		}
+	case "nil":
+		if b, isB := v.(*ssa.BinOp); isB && (b.Op == token.EQL || b.Op == token.NEQ) {
+			var other ssa.Value
+			if isNilConst(b.Y) {
+				other = b.X
+			} else if isNilConst(b.X) {
+				other = b.Y
+			}
+			if other != nil && f.isV(other) {
+				isNil := (b.Op == token.EQL) == val
+				return isNil == f.want
+			}
+		}
+	}
+	phi, isPhi := v.(*ssa.Phi)
+	if !isPhi || phi.Type().Underlying().String() != "bool" {
+		return false
+	}
+	feasible := 0
+	for i, ed := range phi.Edges {
+		pred := phi.Block().Preds[i]
+		if c, isC := constBool(ed); isC {
+			if c != val {
+				continue
+			}
+			feasible++
+			if !predEstablishes(pred, phi.Block(), f, fn) {
+				return false
+			}
+			continue
+		}
+		feasible++
+		if condImplies(ed, val, f, fn, depth+1) || predEstablishes(pred, phi.Block(), f, fn) {
+			continue
+		}
+		return false
+	}
+	return feasible > 0
+}
+
+// predEstablishes: control arriving in `to` from `pred` has the fact: pred is guarded by it, or the
+// edge pred→to itself establishes it.
+func predEstablishes(pred, to *ssa.BasicBlock, f fact, fn *ssa.Function) bool {
+	if factGuardsShallow(fn, pred, f) {
+		return true
+	}
+	if len(pred.Instrs) > 0 {
+		if ifi, isIf := pred.Instrs[len(pred.Instrs)-1].(*ssa.If); isIf {
+			for si, sb := range pred.Succs {
+				if sb == to {
+					if s, ok := directEdge(ifi, f); ok && s == si {
+						return true
+					}
+				}
+			}
+		}
+	}
+	return false
+}
+
+// factGuardsShallow is factGuards restricted to direct conditions (used inside condImplies to avoid
+// unbounded recursion).
+func factGuardsShallow(fn *ssa.Function, target *ssa.BasicBlock, f fact) bool {
+	for _, fnc := range enclosingChain(target, fn) {
+		for _, ifi := range ifsIn(fnc) {
+			if s, ok := directEdge(ifi, f); ok && edgeDominates(ifi.Block(), s, target) {
+				return true
+			}
+		}
 	}
 	return false
 }
